@@ -805,6 +805,20 @@ func parentMain(c *Ctx) int {
 	return code
 }
 
+// rssMB reads a process' resident set size.
+func rssMB(pid int) int {
+	b, err := os.ReadFile(fmt.Sprintf("/proc/%d/statm", pid))
+	if err != nil {
+		return 0
+	}
+	f := strings.Fields(string(b))
+	if len(f) < 2 {
+		return 0
+	}
+	pages, _ := strconv.Atoi(f[1])
+	return pages * os.Getpagesize() / (1 << 20)
+}
+
 var reSite = regexp.MustCompile(`(?m)^\s+(/[^\s]+\.go):(\d+)`)
 var rePanic = regexp.MustCompile(`(?m)^(panic: .*|fatal error: .*|WARNING: DATA RACE)$`)
 
@@ -855,6 +869,11 @@ func runChild(c *Ctx, pd *PropDef, us []unit, k, w, from int, a *agg, mu *sync.M
 	lastAt := time.Now()
 	stop := make(chan struct{})
 	var hungFlag, budgetFlag bool
+	memFlag := 0
+	maxRSS := 6000
+	if v := os.Getenv("VERIF_MAX_RSS_MB"); v != "" {
+		maxRSS, _ = strconv.Atoi(v)
+	}
 	go func() {
 		tk := time.NewTicker(2 * time.Second)
 		defer tk.Stop()
@@ -868,6 +887,12 @@ func runChild(c *Ctx, pd *PropDef, us []unit, k, w, from int, a *agg, mu *sync.M
 				lastMu.Unlock()
 				if idle > hangLimit {
 					hungFlag = true
+					cmd.Process.Kill()
+					return
+				}
+				if rss := rssMB(cmd.Process.Pid); rss > maxRSS {
+					hungFlag = true
+					memFlag = rss
 					cmd.Process.Kill()
 					return
 				}
@@ -926,7 +951,9 @@ func runChild(c *Ctx, pd *PropDef, us []unit, k, w, from int, a *agg, mu *sync.M
 	} else {
 		tail = tail + "\n" + stdoutTail.String()
 	}
-	if hungFlag {
+	if hungFlag && memFlag > 0 {
+		tail = fmt.Sprintf("TIMEOUT: memory runaway, resident set %d MB while executing one plan\n", memFlag) + tail
+	} else if hungFlag {
 		tail = "TIMEOUT: no progress for " + hangLimit.String() + "\n" + tail
 	}
 	return last, false, tail, hungFlag
